@@ -131,6 +131,7 @@ PROPS = {
     "C04": {
         "engine": "kani",
         "files": ["common.rs", "c04.rs"],
+        "timeout": {"quick": 400, "thorough": 3000},
         "extra_patches": [GETRANDOM_PATCH],
         "transforms": [BUFFER_TRANSFORM] + MODEL_TRANSFORMS,
         "explanation": (
@@ -139,10 +140,11 @@ PROPS = {
             "different byte stream, and == is componentwise equality - for pairs of VectorClocks side by side (incl. the adjacency shapes "
             "([x],[]) vs ([],[x])), pairs of DenseNatMap<Id,u8>, and ActorModelState<_,u8> with 1 (thorough 2) actors over ALL actor "
             "states, histories and crash-flag vectors (timers, random choices, network empty): states differing only in a crash flag are "
-            "different states with different streams. (Single VectorClock coherence is decided in C20's hash harnesses.)"
+            "different states with different streams; pairs of HashableHashSet<u8> / HashableHashMap<u8,u8> (Vec-backed container model, REAL order-insensitive Hash code) "
+            "holding one element on either side, and (thorough) the same two elements inserted in either order. (Single VectorClock coherence is decided in C20's hash harnesses.)"
         ),
         "bounds": {"clock_len": "0..=2 per clock in pairs", "map_len": "0..=3", "actors": "1 (thorough 2; measured 688 s)", "components": "full u32 / u8", "unwind": "3-11"},
-        "outside": ["HashableHashSet/HashableHashMap, Timers, Network (unordered kinds), RandomChoices WITH ELEMENTS and the consistency testers: hashbrown/BTreeMap code is out of CBMC's reach (measured: no verdict in 15 min for a one-element set) - so insertion-order/capacity/seed independence and the adjacent-set collision are not decided here", "reachable states of arbitrary actor models"],
+        "outside": ["hash containers with more than 1-2 elements, nested ones, capacity/seed independence of the REAL hashbrown tables (the containers are modelled), Timers/Network/RandomChoices with elements inside ActorModelState, the consistency testers", "random_choices missing from ActorModelState identity (DESIGN 5.4)", "reachable states of arbitrary actor models"],
         "assumptions": COMMON_ASSUME + HASHSET_ASSUME + MODELS_ASSUME,
     },
     "C09": {
@@ -167,7 +169,7 @@ PROPS = {
     "C05": {
         "engine": "mirsym",
         "explanation": "Job-broker protocol (no lost work, no lost wake-up, termination of join, stop propagation) decided by BMC over MIR-derived segment summaries of src/job_market.rs with z3 choosing schedules, block outcomes and stop reasons; inductive invariant for the quiescence rule. See mirsym/driver.py EXPLAIN.",
-        "bounds": {"threads": "2 (quick, K=10); 2 (K=16) and 3 (K=11) thorough", "queues": "<=6 jobs", "market_batches": "<=4"},
+        "bounds": {"threads": "2 (K=10) and 3 (K=8) quick; 2 (K=14) and 3 (K=10) thorough, also with spurious wake-ups", "queues": "<=6 jobs", "market_batches": "<=4"},
         "outside": ["equality of evaluated state sets/verdicts with the single-threaded run (check_block + DashMap; see C01)", ">3 threads / longer schedules for the bounded obligations", "memory-model effects", "the timeout stop reason (C12)"],
         "assumptions": ["log/parking_lot models (sync points: lock, wait, notify_one, notify_all, guard drop)", "containers of opaque jobs abstracted to lengths", "client automaton mirrors the worker closures (broker calls re-read from MIR each run)"],
     },
